@@ -237,6 +237,11 @@ func (tfs *tagFamilyFilters) Eq(tagName string, tagValue string) bool {
 func (tfs *tagFamilyFilters) Range(tagName string, rangeOpts index.RangeOpts) (bool, error) {
 	for _, tff := range tfs.tagFamilyFilters {
 		if tf, ok := (*tff)[tagName]; ok {
+			if len(tf.min) == 0 || len(tf.max) == 0 {
+				// No bounds were recorded for this block (it was written before the index rule
+				// existed, or it holds no value): nothing can be concluded, don't skip.
+				continue
+			}
 			if rangeOpts.Lower != nil {
 				lower, ok := rangeOpts.Lower.(*index.FloatTermValue)
 				if !ok {
